@@ -55,6 +55,23 @@ def main():
                 rc, out = sh("./check %s --tier quick" % p, cwd="/verif")
                 lines = [l for l in out.splitlines() if l.startswith("VIOLATION") or l.startswith("OK ") or l.startswith("KNOWN-FINDING")]
                 results[p] = {"exit": rc, "lines": lines[:6]}
+            # keep the minimised failing inputs as corpus cases (they run first on every later check)
+            for p in props:
+                if results[p]["exit"] != 0:
+                    cdir = os.path.join("/verif/corpus", p); os.makedirs(cdir, exist_ok=True)
+                    n = 0
+                    for l in results[p]["lines"]:
+                        if l.startswith("VIOLATION") and "replay=" in l and "no-failing-input-found" not in l and n < 2:
+                            rp = l.split("replay=")[1].split()[0]
+                            try:
+                                r = json.load(open(rp))
+                                case = r["cases"][0]
+                                cid, body = case.split(" ", 1)
+                                with open(os.path.join(cdir, "%s-%d.case" % (sid, n)), "w") as f:
+                                    f.write("%s%s_%d %s\n" % (cid[0], sid.replace("-", ""), n, body))
+                                n += 1
+                            except Exception as e:
+                                pass
         finally:
             sh("git -C /repo checkout -- .")
         # restore evidence / Gen files to the unchanged tree's
